@@ -13,7 +13,7 @@ use serde::{Deserialize, Serialize};
 pub enum Case {
     /// literal source, expected value (None = must be a compile error)
     Lit { src: String, expect: Option<V>, form: String },
-    /// conversion function, argument, call style (0 receiver, 1 global)
+    /// conversion function, argument, call style (0 receiver, 1 global; 2 / 3 the same with the argument written as a literal)
     Conv { func: String, arg: V, style: u8 },
     /// string() followed by the inverse conversion
     Round { value: V },
@@ -85,7 +85,13 @@ pub fn check(c: &Case) -> Outcome {
                     _ => Outcome::Skip(w),
                 };
             }
-            let src = if *style == 0 && func != "bytes" { format!("x.{func}()") } else { format!("{func}(x)") };
+            // styles 2 / 3: the argument written out as a literal inside the program
+            let operand = match (*style >= 2, crate::model::lit::lit(arg)) {
+                (true, Some(l)) => l,
+                (true, None) => return Outcome::Skip("no-literal-form"),
+                _ => "x".to_string(),
+            };
+            let src = if *style % 2 == 0 && func != "bytes" { format!("{operand}.{func}()") } else { format!("{func}({operand})") };
             let got = match sut::run_src(&src, &[("x".into(), arg.clone())]) {
                 Ran::Done(r) => r,
                 o => return fail(format!("`{src}`: {}", o.show())),
@@ -237,7 +243,7 @@ fn double_lits(f: f64, out: &mut Vec<Case>) {
 
 fn conv_cases(arg: &V, out: &mut Vec<Case>) {
     for func in ["int", "uint", "double", "string", "bytes"] {
-        for style in 0..2u8 {
+        for style in 0..4u8 {
             out.push(Case::Conv { func: func.into(), arg: arg.clone(), style });
         }
     }
@@ -359,7 +365,7 @@ pub fn run(r: &mut Runner) {
                     _ => gen_string(u),
                 }),
             };
-            Case::Conv { func: u.pick(&["int", "uint", "double", "string", "bytes"]).to_string(), arg, style: u.below(2) as u8 }
+            Case::Conv { func: u.pick(&["int", "uint", "double", "string", "bytes"]).to_string(), arg, style: u.below(4) as u8 }
         },
         check,
     );
